@@ -456,6 +456,19 @@ def sib_iter(ctx: Ctx) -> List[Ob]:
         tr = tries[0]
         h = [h for h in tr.handlers if norm(h.type) == "StopTraversal"][0]
         okv = bool(h.name) and len(h.body) == 1 and isinstance(h.body[0], ast.Return) and h.body[0].value is not None and norm(h.body[0].value) == f"{h.name}.value"
+        if not okv and h.name and len(h.body) == 1 and isinstance(h.body[0], ast.Assign) and len(h.body[0].targets) == 1 and isinstance(h.body[0].targets[0], ast.Name) \
+                and norm(h.body[0].value) == f"{h.name}.value":
+            # the value is carried out through a local: every `return` behind the try hands that local back
+            rv_ = h.body[0].targets[0].id
+            blk_ = m.parent_of(tr)
+            after = []
+            for fld_ in ("body", "orelse", "finalbody"):
+                b_ = getattr(blk_, fld_, None)
+                if isinstance(b_, list) and any(x is tr for x in b_):
+                    after = b_[[i for i, x in enumerate(b_) if x is tr][0] + 1:]
+            rets_ = [x for st_ in after for x in ast.walk(st_) if isinstance(x, ast.Return)]
+            okv = bool(rets_) and all(r_.value is not None and norm(r_.value) == rv_ for r_ in rets_) and not any(
+                isinstance(x, ast.Name) and x.id == rv_ and isinstance(x.ctx, ast.Store) for st_ in after for x in ast.walk(st_))
         obs.append(ctx.ob("SIB-ITER", ["C06"], f, "visit: returns the value carried by StopTraversal", h, okv,
                           "" if okv else "visit() must return StopTraversal.value"))
         # every traversal call (handler / _visit_level / callback on self) lies inside the try body
